@@ -85,7 +85,7 @@ struct SIMDVector<int64_t,simd_abi::avx512> {
         value = _mm512_setzero_si512();
         for (FASTOR_INDEX i=0; i<Size; ++i) {
             if (maska[i] == -1) {
-                ((scalar_value_type*)&value)[Size - i - 1] = a[Size - i - 1];
+                ((internal::int64_lane_t*)&value)[Size - i - 1] = a[Size - i - 1];
             }
         }
         unused(Aligned);
@@ -103,10 +103,7 @@ struct SIMDVector<int64_t,simd_abi::avx512> {
         mask_to_array(mask,maska);
         for (FASTOR_INDEX i=0; i<Size; ++i) {
             if (maska[i] == -1) {
-                a[Size - i - 1] = ((const scalar_value_type*)&value)[Size - i - 1];
-            }
-            else {
-                a[Size - i - 1] = 0;
+                a[Size - i - 1] = ((const internal::int64_lane_t*)&value)[Size - i - 1];
             }
         }
         unused(Aligned);
@@ -464,7 +461,7 @@ struct SIMDVector<int64_t,simd_abi::avx> {
         value = _mm256_setzero_si256();
         for (FASTOR_INDEX i=0; i<Size; ++i) {
             if (maska[i] == -1) {
-                ((scalar_value_type*)&value)[Size - i - 1] = a[Size - i - 1];
+                ((internal::int64_lane_t*)&value)[Size - i - 1] = a[Size - i - 1];
             }
         }
         unused(Aligned);
@@ -482,10 +479,7 @@ struct SIMDVector<int64_t,simd_abi::avx> {
         mask_to_array(mask,maska);
         for (FASTOR_INDEX i=0; i<Size; ++i) {
             if (maska[i] == -1) {
-                a[Size - i - 1] = ((const scalar_value_type*)&value)[Size - i - 1];
-            }
-            else {
-                a[Size - i - 1] = 0;
+                a[Size - i - 1] = ((const internal::int64_lane_t*)&value)[Size - i - 1];
             }
         }
         unused(Aligned);
@@ -778,7 +772,7 @@ struct SIMDVector<int64_t,simd_abi::sse> {
         value = _mm_setzero_si128();
         for (FASTOR_INDEX i=0; i<Size; ++i) {
             if (maska[i] == -1) {
-                ((scalar_value_type*)&value)[Size - i - 1] = a[Size - i - 1];
+                ((internal::int64_lane_t*)&value)[Size - i - 1] = a[Size - i - 1];
             }
         }
         unused(Aligned);
@@ -796,10 +790,7 @@ struct SIMDVector<int64_t,simd_abi::sse> {
         mask_to_array(mask,maska);
         for (FASTOR_INDEX i=0; i<Size; ++i) {
             if (maska[i] == -1) {
-                a[Size - i - 1] = ((const scalar_value_type*)&value)[Size - i - 1];
-            }
-            else {
-                a[Size - i - 1] = 0;
+                a[Size - i - 1] = ((const internal::int64_lane_t*)&value)[Size - i - 1];
             }
         }
         unused(Aligned);
